@@ -1393,8 +1393,11 @@ impl Interp {
                         node.data.resize(off + n, 0);
                     }
                     node.data[off..off + n].copy_from_slice(&buf);
-                    node.mtime = Some(now);
-                    node.attr |= 0x20;
+                    if n > 0 {
+                        // a call that stores no byte is not "the last write", on any surface
+                        node.mtime = Some(now);
+                        node.attr |= 0x20;
+                    }
                     node.touched = true;
                     self.files[i].off = of.off + n as u32;
                     self.files[i].dirty = true;
